@@ -21,22 +21,22 @@ def fnJson (m : FnMatch) : Json :=
 
 mutual
 partial def entryJson : Entry → Json
-  | .blockCode ls ln => Driver.arr [Json.str "BlockCode", strs ls, Driver.nat ln]
-  | .heading lvl c cl ln => Driver.arr [Json.str "Heading", Driver.arr [Driver.nat lvl, Driver.str c, Driver.str cl], Driver.nat ln]
-  | .quote inner loose ln => Driver.arr [Json.str "Quote", Driver.arr [Driver.arr (inner.map entryJson), Json.bool loose], Driver.nat ln]
-  | .codeFence ls p ld info lang ln =>
+  | .blockCode ls ln _ => Driver.arr [Json.str "BlockCode", strs ls, Driver.nat ln]
+  | .heading lvl c cl ln _ => Driver.arr [Json.str "Heading", Driver.arr [Driver.nat lvl, Driver.str c, Driver.str cl], Driver.nat ln]
+  | .quote inner loose ln _ => Driver.arr [Json.str "Quote", Driver.arr [Driver.arr (inner.map entryJson), Json.bool loose], Driver.nat ln]
+  | .codeFence ls p ld info lang ln _ =>
     Driver.arr [Json.str "CodeFence", Driver.arr [strs ls, Driver.arr [Driver.nat p, Driver.str ld, Driver.str info, Driver.str lang]], Driver.nat ln]
-  | .thematicBreak l ln => Driver.arr [Json.str "ThematicBreak", strs [l], Driver.nat ln]
-  | .list items ln => Driver.arr [Json.str "List", Driver.arr (items.map itemJson), Driver.nat ln]
-  | .table ls sl ln => Driver.arr [Json.str "Table", Driver.arr [strs ls, Driver.nat sl], Driver.nat ln]
-  | .footnote ms ln => Driver.arr [Json.str "Footnote", Driver.arr (ms.map fnJson), Driver.nat ln]
-  | .linkRefDefs ms ln => Driver.arr [Json.str "LinkReferenceDefinitionBlock", Driver.arr (ms.map fnJson), Driver.nat ln]
-  | .paragraph ls ln => Driver.arr [Json.str "Paragraph", strs ls, Driver.nat ln]
-  | .setext ls ln => Driver.arr [Json.str "Setext", strs ls, Driver.nat ln]
-  | .htmlBlock ls ln => Driver.arr [Json.str "HtmlBlock", strs ls, Driver.nat ln]
-  | .blankLine ln => Driver.arr [Json.str "BlankLine", Json.null, Driver.nat ln]
+  | .thematicBreak l ln _ => Driver.arr [Json.str "ThematicBreak", strs [l], Driver.nat ln]
+  | .list items ln _ => Driver.arr [Json.str "List", Driver.arr (items.map itemJson), Driver.nat ln]
+  | .table ls sl ln _ => Driver.arr [Json.str "Table", Driver.arr [strs ls, Driver.nat sl], Driver.nat ln]
+  | .footnote ms ln _ => Driver.arr [Json.str "Footnote", Driver.arr (ms.map fnJson), Driver.nat ln]
+  | .linkRefDefs ms ln _ => Driver.arr [Json.str "LinkReferenceDefinitionBlock", Driver.arr (ms.map fnJson), Driver.nat ln]
+  | .paragraph ls ln _ => Driver.arr [Json.str "Paragraph", strs ls, Driver.nat ln]
+  | .setext ls ln _ => Driver.arr [Json.str "Setext", strs ls, Driver.nat ln]
+  | .htmlBlock ls ln _ => Driver.arr [Json.str "HtmlBlock", strs ls, Driver.nat ln]
+  | .blankLine ln _ => Driver.arr [Json.str "BlankLine", Json.null, Driver.nat ln]
 partial def itemJson : Item → Json
-  | .mk inner loose ind pre ldr ln =>
+  | .mk inner loose ind pre ldr ln _ =>
     Driver.arr [Driver.arr [Driver.arr (inner.map entryJson), Json.bool loose], Driver.nat ind, Driver.nat pre, Driver.str ldr, Driver.nat ln]
 end
 
@@ -49,7 +49,7 @@ def parseOp (j : Json) : Except String Json := do
   let types ← (← Driver.getArr j "types").toList.mapM (fun t => do btokOf (← t.getStr?))
   let lines ← (← Driver.getArr j "lines").toList.mapM Driver.asStr
   let cfg : Cfg := { types := types, tableInterrupt := (j.getObjValAs? Bool "tableInterrupt").toOption.getD true }
-  let fuel := (j.getObjValAs? Nat "fuel").toOption.getD 200
+  let fuel := (j.getObjValAs? Nat "fuel").toOption.getD 1000000
   match blockPhase cfg fuel lines with
   | .err e => pure (Json.mkObj [("raises", Json.str (errName e))])
   | .ok (b, st) =>
